@@ -134,7 +134,11 @@ def summarize(recs):
         if st == "stats":
             for k in ("stmts", "calls", "queries", "solver_time", "forks"):
                 s[k] += r[k]
-            s["funcs"].update(r["funcs"])
+            for k, v in r["funcs"].items():
+                if k.startswith("@fork "):
+                    s["funcs"][k] = s["funcs"].get(k, 0) + v
+                else:
+                    s["funcs"][k] = v
             s["assumptions"].update(r["assumptions"])
         else:
             s["paths"] += 1
